@@ -236,7 +236,7 @@ def run(tier):
     import kanicheck
 
     kanicheck.discharge(ck.out, "liveness", {"c16_liveness_counter": "NodeLivenessState: k failures after a success give counter k; should_evict iff counter >= limit; one success resets"},
-                        timeout_s=900, logname="c16-kani-" + tier)
+                        timeout_s=2400, logname="c16-kani-" + tier)
     ck.out.bounds = ["EvictionManager: one event (failure / success / trust update / mark / forget) or one query from an ARBITRARY manager state (three HashMaps as SMT arrays over 256-bit ids), two distinct symbolic node ids, symbolic thresholds",
                      "consecutive counter < 2^31, totals < 2^62 (overflow of the statistics counters needs that many events)"] + c16_selector.BOUNDS
     ck.out.outside = ["DhtCoreEngine::{evict_node, handle_node_failure, select_query_peers, select_storage_peers} (async)", "the maintenance task that applies evictions",
